@@ -1,7 +1,9 @@
 import ERP.Lemmas.StepInv
+import ERP.Spec.Reader
 /-! # C19 — Parameter extraction matches the RS274/Marlin reading
 
-**Partial.**  Proved here, for every word list:
+Proved here: the tokenizer half (`parameterItems_eq_spec`, for *every* text) and, for every word
+list:
 
 * `lastValue_spec`: `lastValue ws c` is the value of the *last* word with letter `c` that carries a
   value (valueless repetitions of the letter are ignored), `none` when there is none;
@@ -12,11 +14,17 @@ import ERP.Lemmas.StepInv
   `handleGcode` is the position of the reference printer (`Spec/Printer.lean`, which reads a
   command's words through the same last-value rule) after executing that command.
 
-Not proved: that `parameterItems` — the tokenisation by `REGEX_PARAMETER_OR_STR`, whose model is
-regenerated from the source and executed by the correspondence suites `parser`/`text` — yields
-for *every* spelling the same pairs as the reference reader.  That half of the property is decided
-by the correspondence of the model with the implementation plus the oracle search against the
-independent reference reader (`harness/refprinter.py: read_words`); see `DESIGN.md`. -/
+The tokenizer theorem: `specRead` below is a straightforward maximal-munch reading of a parameter
+string (skip blanks; a letter; blanks; the longest number `[+-]? digits* (. digits+)?` with at
+least one digit, else the letter is a valueless flag; any other character is skipped).
+`parameterItems_eq_spec` proves that the letter items `parameterItems` yields — through the
+backtracking matcher on `REGEX_PARAMETER_OR_STR` as regenerated from the source
+(`Rx.scan_eq`, `Lemmas/ParamScan.lean`) — are exactly `specRead`, for every text, in order, with
+the same values.  `specRead` itself is executed by the driver (`specwords`) and compared with the
+independent Python reader `harness/refprinter.py: read_words` in the `text` suite; the only
+difference between the two readings, a trailing decimal point (`1.`), changes no pair: the spec
+leaves the point behind as a skipped character, the RS274 reader consumes it, the value is `1`
+in both. -/
 namespace ERP.C19
 open ERP
 
@@ -69,6 +77,103 @@ theorem lastValue_append_flag (ws : List (Char × Option α)) (c d : Char) :
     lastValue (ws ++ [(d, none)]) c = lastValue ws c := by
   rw [lastValue_snoc]; simp
 
+section
+variable [OfDecimal α]
+open ERP.Rx
+
+theorem wordsOf_append (a b : List (Item α)) : wordsOf (a ++ b) = wordsOf a ++ wordsOf b := by
+  simp [wordsOf, List.filterMap_append]
+
+theorem wordsOf_strArg (a : List (Item α)) (t : Text) : wordsOf (a ++ [.strArg t]) = wordsOf a := by
+  simp [wordsOf, List.filterMap_append]
+
+theorem wordsOf_end (a : List (Item α)) (src : Text) (sa : Option Nat) :
+    wordsOf (match sa with | some o => a ++ [.strArg (src.drop o)] | none => a) = wordsOf a := by
+  cases sa with
+  | none => rfl
+  | some o => exact wordsOf_strArg a _
+
+/-- the tokenizer loop yields, as letter items, what has been collected plus the reference reading
+of the rest -/
+theorem itemsLoop_spec (src : Text) :
+    ∀ (fuel off : Nat) (sa : Option Nat) (acc : List (Item α)), off ≤ src.length →
+      wordsOf (itemsLoop src fuel off sa acc) = wordsOf acc ++ specWords src fuel off := by
+  intro fuel
+  induction fuel with
+  | zero =>
+    intro off sa acc _
+    simp only [itemsLoop, specWords, List.append_nil]
+    exact wordsOf_end acc src sa
+  | succ fuel ih =>
+    intro off sa acc hoff
+    have hsz : (src.toArray).size = src.length := by simp
+    simp only [itemsLoop, specWords]
+    rw [scan_eq src.toArray off (by rw [hsz]; exact hoff)]
+    unfold scan
+    have hp1 := span_le_size ⟨src.toArray⟩ false SP off (by show off ≤ src.toArray.size; rw [hsz]; exact hoff)
+    generalize hp1e : span ⟨src.toArray⟩ false SP off = p1 at *
+    have hp1' : p1 ≤ src.length := by rw [← hsz]; exact hp1
+    by_cases hl : passes ⟨src.toArray⟩ false LET p1 = true
+    · have hlt : p1 < src.length := by rw [← hsz]; exact passes_lt hl
+      simp only [hl, if_true]
+      have hp2 := span_le_size ⟨src.toArray⟩ false SP (p1 + 1) (by show p1 + 1 ≤ src.toArray.size; rw [hsz]; omega)
+      generalize span ⟨src.toArray⟩ false SP (p1 + 1) = p2 at *
+      have hp2' : p2 ≤ src.length := by rw [← hsz]; exact hp2
+      cases hn : numEnd ⟨src.toArray⟩ p2 with
+      | none =>
+        simp only [capOf, List.find?, beq_self_eq_true, Option.map_some, show ((1 : Nat) == 2) = false from rfl,
+          Option.map_none, Nat.lt_succ_self, if_true]
+        rw [ih p2 _ _ hp2', wordsOf_append]
+        simp [wordsOf]
+      | some e =>
+        have he := (numEnd_gt ⟨src.toArray⟩ p2 e hp2 hn).2
+        have he' : e ≤ src.length := by rw [← hsz]; exact he
+        simp only [capOf, List.find?, beq_self_eq_true, Option.map_some, show ((2 : Nat) == 1) = false from rfl,
+          Nat.lt_succ_self, if_true]
+        rw [ih e _ _ he', wordsOf_append]
+        simp [wordsOf]
+    · have hl' : passes ⟨src.toArray⟩ false LET p1 = false := by simpa using hl
+      simp only [hl', Bool.false_eq_true, if_false]
+      by_cases hnl : passes ⟨src.toArray⟩ true LET p1 = true
+      · have hlt : p1 < src.length := by rw [← hsz]; exact passes_lt hnl
+        simp only [hnl, if_true, capOf, List.find?, show ((3 : Nat) == 1) = false from rfl, Option.map_none]
+        exact ih (p1 + 1) _ _ (by omega)
+      · have hnl' : passes ⟨src.toArray⟩ true LET p1 = false := by simpa using hnl
+        simp only [hnl', Bool.false_eq_true, if_false, List.append_nil]
+        by_cases hlt : off < p1
+        · -- trailing blanks: one more (empty) round of the loop
+          simp only [hlt, if_true, capOf, List.find?, show ((3 : Nat) == 1) = false from rfl, Option.map_none]
+          -- p1 is the end of the text
+          have hend : p1 = src.length := by
+            rcases Nat.lt_or_ge p1 src.length with h | h
+            · exfalso
+              have h' : p1 < (src.toArray).size := by rw [hsz]; exact h
+              have := nonletter_iff ⟨src.toArray⟩ p1 h'
+              rw [hnl', hl'] at this; cases this
+            · omega
+          cases fuel with
+          | zero => simp only [itemsLoop]; exact wordsOf_end acc src _
+          | succ f =>
+            simp only [itemsLoop]
+            rw [scan_eq src.toArray p1 (by rw [hsz]; exact hp1')]
+            have hs0 : passes ⟨src.toArray⟩ false SP p1 = false := by
+              unfold passes; simp [hend]
+            unfold scan
+            rw [span_of_stop ⟨src.toArray⟩ false SP p1 hs0]
+            simp only [hl', hnl', Bool.false_eq_true, if_false, Nat.lt_irrefl]
+            exact wordsOf_end acc src _
+        · simp only [hlt, if_false]
+          exact wordsOf_end acc src sa
+
+/-- **The tokenizer is the reference reading** — for every parameter string. -/
+theorem parameterItems_eq_spec (t : Text) :
+    wordsOf (parameterItems (α := α) (some t)) = specRead t := by
+  unfold parameterItems specRead
+  rw [itemsLoop_spec t _ 0 none [] (Nat.zero_le _)]
+  rfl
+
+end
+
 end ERP.C19
 
 namespace ERP.C19
@@ -91,4 +196,20 @@ theorem g0_acts_on_last_values (cfg : Config) (s : FState α) (cmd : Cmd α) (h 
 /-- non-vacuity of the last-value rule on a repeated letter and a valueless flag -/
 example : lastValue [('X', some (1 : Nat)), ('Y', some 2), ('X', some 3), ('X', none)] 'X' = some 3 := by decide
 
+end ERP.C19
+
+namespace ERP.C19
+/-- sign, digits, scale — the exact decimal a number text denotes -/
+instance : OfDecimal (Bool × Nat × Nat) := ⟨fun n m e => (n, m, e)⟩
+
+/-- the reference reading on a line with every spelling the property lists: lower case, spaces,
+signs, leading and trailing decimal point, a repeated letter, valueless flags -/
+example : specRead (α := Bool × Nat × Nat) "X1.5 y -2 S E+1. X.25F".toList =
+    [('X', some (false, 15, 1)), ('Y', some (true, 2, 0)), ('S', none), ('E', some (false, 1, 0)),
+     ('X', some (false, 25, 2)), ('F', none)] := by decide +kernel
+
+example : wordsOf (parameterItems (α := Bool × Nat × Nat) (some "X1.5 y -2 S E+1. X.25F".toList)) =
+    [('X', some (false, 15, 1)), ('Y', some (true, 2, 0)), ('S', none), ('E', some (false, 1, 0)),
+     ('X', some (false, 25, 2)), ('F', none)] := by
+  rw [parameterItems_eq_spec]; decide +kernel
 end ERP.C19
